@@ -166,6 +166,11 @@ pub trait Check: Send + Sync {
     fn render(&self, tape: &Tape) -> Value {
         json!({"tape": tape.to_hex()})
     }
+    /// Run the random stage in child processes (one per worker): a process abort inside the code
+    /// under test (double panic) then costs one case instead of the whole check
+    fn isolated(&self) -> bool {
+        false
+    }
     /// Enumerated / auxiliary stages (exhaustive small domains, known-finding probes, corpus).
     /// Returns failures found (with an optional tape)
     fn extra(&self, _tier: Tier, _seed: u64, _acc: &mut Acc) -> Vec<(Failure, Option<Tape>)> {
@@ -412,6 +417,224 @@ fn corpus_tapes(id: &str) -> Vec<(String, Tape)> {
     out
 }
 
+fn case_out_json(o: &CaseOut) -> Value {
+    json!({
+        "evals": o.evals,
+        "nontrivial": o.nontrivial.iter().map(|x| format!("{x:x}")).collect::<Vec<_>>(),
+        "classes": o.classes.iter().map(|(c, n)| json!([c, n])).collect::<Vec<_>>(),
+        "sample": o.sample,
+        "excluded": o.excluded_known,
+    })
+}
+
+fn absorb_json(acc: &mut Acc, v: &Value) {
+    acc.cases += 1;
+    acc.evaluations += v["evals"].as_u64().unwrap_or(1).max(1);
+    if let Some(a) = v["nontrivial"].as_array() {
+        for x in a {
+            if let Some(h) = x.as_str().and_then(|s| u64::from_str_radix(s, 16).ok()) {
+                acc.nontrivial.insert(h);
+            }
+        }
+    }
+    if let Some(a) = v["classes"].as_array() {
+        for c in a {
+            if let (Some(name), Some(n)) = (c[0].as_str(), c[1].as_u64()) {
+                *acc.classes.entry(name.to_string()).or_default() += n;
+            }
+        }
+    }
+    acc.excluded_known += v["excluded"].as_u64().unwrap_or(0);
+    if !v["sample"].is_null() && acc.samples.len() < 4 {
+        acc.samples.push(v["sample"].clone());
+    }
+}
+
+/// Child process of an isolated check: one worker's share of the random stage, reporting over
+/// stdout lines (@CASE before, @DONE after each case; @FAILRAW / @FAIL; @END)
+pub fn run_child(check: &dyn Check, tier: Tier, seed: u64, w: usize, skip: u64) -> i32 {
+    use std::io::Write;
+    let plan = check.plan(tier);
+    let workers = plan.workers.max(1);
+    let my_cases = plan.cases / workers as u64 + if (w as u64) < plan.cases % workers as u64 { 1 } else { 0 };
+    let out = std::io::stdout();
+    let say = |line: String| {
+        let mut o = out.lock();
+        let _ = writeln!(o, "{line}");
+        let _ = o.flush();
+    };
+    if my_cases == 0 {
+        say("@END".into());
+        return 0;
+    }
+    let cfg = Config { cases: my_cases as u32, failure_persistence: None, max_shrink_iters: plan.max_shrink_iters, max_global_rejects: 0, ..Config::default() };
+    let rng = TestRng::from_seed(RngAlgorithm::ChaCha, &seed_bytes(seed, w as u64, 2));
+    let mut runner = TestRunner::new_with_rng(cfg, rng);
+    let strat = (any::<[u8; CFG_LEN]>(), prop::collection::vec(any::<[u8; REC_LEN]>(), 0..=plan.max_recs));
+    let started = Cell::new(0u64);
+    let failed = Cell::new(false);
+    let samples = Cell::new(0u32);
+    let res = runner.run(&strat, |(cfg, recs)| {
+        let tape = Tape { cfg, recs };
+        if !failed.get() {
+            let n = started.get();
+            started.set(n + 1);
+            if n < skip {
+                return Ok(());
+            }
+        }
+        say(format!("@CASE {}", tape.to_hex()));
+        let want_sample = !failed.get() && samples.get() < 2;
+        match run_caught(check, &tape, want_sample) {
+            Ok(o) => {
+                if !failed.get() {
+                    if o.sample.is_some() {
+                        samples.set(samples.get() + 1);
+                    }
+                    say(format!("@DONE {}", case_out_json(&o)));
+                }
+                Ok(())
+            }
+            Err(f) => {
+                if !failed.get() {
+                    failed.set(true);
+                    say(format!("@FAILRAW {}", json!({"tape": tape.to_hex(), "signature": f.signature, "msg": f.msg, "detail": f.detail})));
+                }
+                Err(TestCaseError::fail(f.msg))
+            }
+        }
+    });
+    if let Err(TestError::Fail(_, (cfg, recs))) = res {
+        let tape = Tape { cfg, recs };
+        say(format!("@CASE {}", tape.to_hex()));
+        if let Err(f) = run_caught(check, &tape, false) {
+            say(format!("@FAIL {}", json!({"tape": tape.to_hex(), "signature": f.signature, "msg": f.msg, "detail": f.detail})));
+        }
+    }
+    say("@END".into());
+    0
+}
+
+/// Parent side of an isolated check's random stage
+fn run_isolated(check: &dyn Check, tier: Tier, seed: u64, plan: &Plan, acc: &mut Acc, failures: &mut Vec<(Failure, Option<Tape>)>) {
+    use std::io::{BufRead, BufReader};
+    use std::process::{Command, Stdio};
+    let workers = plan.workers.max(1);
+    let exe = match std::env::current_exe() {
+        Ok(e) => e,
+        Err(e) => {
+            failures.push((Failure::new("harness-panic:current_exe", format!("{e}")), None));
+            return;
+        }
+    };
+    let stop = AtomicBool::new(false);
+    let shared = Mutex::new((Acc::default(), Vec::<(Failure, Option<Tape>)>::new()));
+    std::thread::scope(|s| {
+        for w in 0..workers {
+            let (stop, shared, exe) = (&stop, &shared, &exe);
+            s.spawn(move || {
+                let mut local = Acc::default();
+                let mut fails: Vec<(Failure, Option<Tape>)> = vec![];
+                let mut skip = 0u64;
+                let mut respawns = 0u32;
+                'outer: loop {
+                    if stop.load(Ordering::Relaxed) {
+                        break;
+                    }
+                    let mut child = match Command::new(exe)
+                        .arg(check.id())
+                        .arg(tier.name())
+                        .arg("--child")
+                        .arg(w.to_string())
+                        .arg("--skip")
+                        .arg(skip.to_string())
+                        .env("VERIF_SEED", seed.to_string())
+                        .env("VERIF_TIER", tier.name())
+                        .stdout(Stdio::piped())
+                        .stderr(Stdio::null())
+                        .spawn()
+                    {
+                        Ok(c) => c,
+                        Err(e) => {
+                            fails.push((Failure::new("harness-panic:spawn", format!("cannot spawn worker process: {e}")), None));
+                            break;
+                        }
+                    };
+                    let reader = BufReader::new(child.stdout.take().unwrap());
+                    let mut in_flight: Option<String> = None;
+                    let mut failraw: Option<Value> = None;
+                    let mut ended = false;
+                    let mut got_fail = false;
+                    for line in reader.lines() {
+                        let Ok(line) = line else { break };
+                        if stop.load(Ordering::Relaxed) && failraw.is_none() {
+                            let _ = child.kill();
+                            break;
+                        }
+                        if let Some(hex) = line.strip_prefix("@CASE ") {
+                            in_flight = Some(hex.to_string());
+                            if failraw.is_none() {
+                                skip += 1;
+                            }
+                        } else if let Some(j) = line.strip_prefix("@DONE ") {
+                            in_flight = None;
+                            if let Ok(v) = serde_json::from_str::<Value>(j) {
+                                absorb_json(&mut local, &v);
+                            }
+                        } else if let Some(j) = line.strip_prefix("@FAILRAW ") {
+                            failraw = serde_json::from_str::<Value>(j).ok();
+                            stop.store(true, Ordering::Relaxed);
+                        } else if let Some(j) = line.strip_prefix("@FAIL ") {
+                            if let Ok(v) = serde_json::from_str::<Value>(j) {
+                                let f = Failure { signature: v["signature"].as_str().unwrap_or("").to_string(), msg: v["msg"].as_str().unwrap_or("").to_string(), detail: v["detail"].clone() };
+                                fails.push((f, v["tape"].as_str().and_then(Tape::from_hex)));
+                                got_fail = true;
+                            }
+                        } else if line == "@END" {
+                            ended = true;
+                        }
+                    }
+                    let _ = child.wait();
+                    if let Some(v) = failraw {
+                        if !got_fail {
+                            // the process died while shrinking: report the unshrunk failure
+                            let f = Failure { signature: v["signature"].as_str().unwrap_or("").to_string(), msg: v["msg"].as_str().unwrap_or("").to_string(), detail: v["detail"].clone() };
+                            fails.push((f, v["tape"].as_str().and_then(Tape::from_hex)));
+                        }
+                        break 'outer;
+                    }
+                    if ended || stop.load(Ordering::Relaxed) {
+                        break;
+                    }
+                    // abnormal end: the in-flight case made the process abort
+                    local.cases += 1;
+                    local.evaluations += 1;
+                    *local.classes.entry("case ended by a process abort inside the code under test (double panic): counted as reported abnormally".into()).or_default() += 1;
+                    if let Some(hex) = in_flight {
+                        let list = local.extra.entry("aborted_case_tapes(first 3)".into()).or_insert_with(|| json!([]));
+                        if let Some(a) = list.as_array_mut()
+                            && a.len() < 3
+                        {
+                            a.push(json!(hex));
+                        }
+                    }
+                    respawns += 1;
+                    if respawns > 400 {
+                        fails.push((Failure::new("harness-panic:respawn-limit", "worker process aborted more than 400 times".to_string()), None));
+                        break;
+                    }
+                }
+                let mut g = shared.lock().unwrap();
+                g.0.merge(local);
+                g.1.extend(fails);
+            });
+        }
+    });
+    let (a, f) = shared.into_inner().unwrap();
+    acc.merge(a);
+    failures.extend(f);
+}
+
 pub fn run_check(check: &dyn Check, tier: Tier, seed: u64) -> i32 {
     let start = Instant::now();
     let plan = check.plan(tier);
@@ -444,7 +667,9 @@ pub fn run_check(check: &dyn Check, tier: Tier, seed: u64) -> i32 {
     let budget_cases = AtomicU64::new(0);
     let shared = Mutex::new((Acc::default(), Vec::<(Failure, Option<Tape>)>::new()));
     let only_known_so_far = failures.iter().all(|(f, _)| known.is_known(check.id(), &f.signature).is_some());
-    if only_known_so_far && plan.cases > 0 {
+    if only_known_so_far && plan.cases > 0 && check.isolated() {
+        run_isolated(check, tier, seed, &plan, &mut acc, &mut failures);
+    } else if only_known_so_far && plan.cases > 0 {
         let workers = plan.workers.max(1);
         std::thread::scope(|s| {
             for w in 0..workers {
